@@ -88,6 +88,11 @@ var (
 
 	UserNames = []string{"alice", "bob", "carol", "dave", "erin", "frank"}
 
+	// SynthDenom is the denomination of the synthetic Hyperlane token of the harness environment
+	// ("hyperlane/<token id>"; the id is assigned by the warp module, identically on every
+	// instance). Set when the first world is built.
+	SynthDenom string
+
 	setPrefixOnce sync.Once
 )
 
@@ -131,6 +136,10 @@ type World struct {
 
 	// HypToken maps a denom to the id of its Hyperlane collateral token.
 	HypToken map[string][]byte
+	// HypSynth is the id of a SYNTHETIC Hyperlane token (denomination SynthDenom, minted by the
+	// warp module); no transfer is ever made in that denomination, its token only appears in
+	// routes of OTHER denominations, which must be refused.
+	HypSynth []byte
 	HypHook  []byte
 
 	AttesterKey *ecdsa.PrivateKey
@@ -151,13 +160,24 @@ var appConfigMu sync.Mutex
 // withAuthorityConfig builds the application with the orbiter module's configured authority
 // replaced. The application reads the embedded YAML at construction time only.
 func withAuthorityConfig(cfg string, build func() (*simapp.SimApp, error)) (*simapp.SimApp, error) {
-	if cfg == "" {
-		return build()
-	}
 	appConfigMu.Lock()
 	defer appConfigMu.Unlock()
 	orig := simapp.AppConfigYAML
-	defer func() { simapp.AppConfigYAML = orig }()
+	pristine := orig
+	defer func() { simapp.AppConfigYAML = pristine }()
+	// The harness environment enables SYNTHETIC Hyperlane tokens next to the collateral tokens
+	// simapp enables (a chain may enable either; which token types exist is the external module's
+	// configuration, and a route naming a token of another type is one more input the module must
+	// judge).
+	tokens := "        - 1 # Enable Collateral tokens"
+	if n := bytes.Count(orig, []byte(tokens)); n != 1 {
+		return nil, fmt.Errorf("harness: expected exactly one %q in simapp/app.yaml, found %d", tokens, n)
+	}
+	simapp.AppConfigYAML = bytes.Replace(orig, []byte(tokens), []byte("        - 1\n        - 2"), 1)
+	if cfg == "" {
+		return build()
+	}
+	orig = simapp.AppConfigYAML
 	line := "authority: " + Authority
 	if n := bytes.Count(orig, []byte(line)); n != 1 {
 		return nil, fmt.Errorf("harness: expected exactly one %q in simapp/app.yaml, found %d", line, n)
@@ -420,6 +440,43 @@ func (w *World) setupHyperlane() error {
 	var mbResp hypcoretypes.MsgCreateMailboxResponse
 	if err := unpackResp(res, &mbResp); err != nil {
 		return err
+	}
+	{
+		res, err = w.run(ctx, &warptypes.MsgCreateSyntheticToken{Owner: owner, OriginMailbox: mbResp.Id})
+		if err != nil {
+			return fmt.Errorf("creating the synthetic token: %w", err)
+		}
+		var synResp warptypes.MsgCreateSyntheticTokenResponse
+		if err := unpackResp(res, &synResp); err != nil {
+			return err
+		}
+		w.HypSynth = synResp.Id.Bytes()
+		denom := "hyperlane/" + synResp.Id.String()
+		if SynthDenom == "" {
+			SynthDenom = denom
+		} else if SynthDenom != denom {
+			return fmt.Errorf("harness: the synthetic token's denomination differs between instances: %s vs %s", SynthDenom, denom)
+		}
+		for _, dom := range HypDomains {
+			if _, err = w.run(ctx, &warptypes.MsgEnrollRemoteRouter{
+				Owner: owner, TokenId: synResp.Id,
+				RemoteRouter: &warptypes.RemoteRouter{ReceiverDomain: dom, ReceiverContract: hyputil.HexAddress(sha256.Sum256([]byte(fmt.Sprintf("router-%d", dom)))).String(), Gas: sdkmath.ZeroInt()},
+			}); err != nil {
+				return err
+			}
+		}
+		// synthetic coins in circulation, as after inbound Hyperlane transfers: minted by the warp
+		// module, held by the whale and the ordinary users
+		mint := sdk.Coins{sdk.NewCoin(denom, sdkmath.NewInt(1_000_000_000_000_000))}
+		if err := w.App.BankKeeper.MintCoins(ctx, warptypes.ModuleName, mint); err != nil {
+			return fmt.Errorf("minting synthetic coins: %w", err)
+		}
+		per := sdk.Coins{sdk.NewCoin(denom, sdkmath.NewInt(1_000_000_000_000))}
+		for _, n := range append([]string{"whale"}, UserNames...) {
+			if err := w.App.BankKeeper.SendCoinsFromModuleToAccount(ctx, warptypes.ModuleName, Addr(n), per); err != nil {
+				return fmt.Errorf("distributing synthetic coins: %w", err)
+			}
+		}
 	}
 	for _, denom := range append(append([]string{}, HypDenoms...), SwapDenom) {
 		res, err = w.run(ctx, &warptypes.MsgCreateCollateralToken{Owner: owner, OriginMailbox: mbResp.Id, OriginDenom: denom})
